@@ -36,8 +36,10 @@ func PadPKCS7(buf []byte, size int) ([]byte, error) {
 	}
 	bufLen := len(buf)
 	padLen := size - bufLen%size
-	padding := bytes.Repeat([]byte{byte(padLen)}, padLen)
-	return append(buf, padding...), nil
+	// Build the result in a new slice: appending to buf could write into spare capacity that belongs to the caller
+	padded := make([]byte, bufLen, bufLen+padLen)
+	copy(padded, buf)
+	return append(padded, bytes.Repeat([]byte{byte(padLen)}, padLen)...), nil
 }
 
 // UnpadPKCS7 removes PKCS#7 from a message.
